@@ -21,7 +21,12 @@ type egPart struct {
 	Name string   `json:"name,omitempty"` // alias: name=part
 	Set  []int    `json:"set,omitempty"`  // set: terminals; la: predicate nonterminals (negative = negated: -1-nt)
 	Neg  bool     `json:"neg,omitempty"`  // set: complement
+	// Alias is the semantic-action alias: part[alias] (C16).
+	Alias string `json:"alias,omitempty"`
 }
+
+// egCmdText, when set, renders "cmd" parts (Sym = action id); C16 sets it while rendering.
+var egCmdText func(id int) string
 
 type egAlt struct {
 	Parts []*egPart `json:"parts"`
@@ -82,6 +87,9 @@ func (g *egSpec) renderPart(p *egPart) string {
 		s = ".m" + fmt.Sprint(p.Sym)
 	case "cmd":
 		s = "{ _ = 0 }"
+		if egCmdText != nil {
+			s = egCmdText(p.Sym)
+		}
 	case "opt":
 		a := p.Alts[0]
 		if len(a.Parts) == 1 && a.Parts[0].simple() && a.Node == "" && a.Parts[0].Name == "" {
@@ -114,6 +122,9 @@ func (g *egSpec) renderPart(p *egPart) string {
 	}
 	if p.Name != "" {
 		s = p.Name + "=" + s
+	}
+	if p.Alias != "" {
+		s += "[" + p.Alias + "]"
 	}
 	return s
 }
@@ -154,7 +165,8 @@ func (g *egSpec) render(name string, options map[string]string, space bool, pars
 		sb.WriteString("space: /[ \\t\\n]+/ (space)\n")
 	}
 	for t := 1; t < g.T; t++ {
-		fmt.Fprintf(&sb, "%s: /%c/\n", egTerm(t), 'a'+t-1)
+		// __termType / __termAction: raw type and lexer action of every terminal (C16)
+		fmt.Fprintf(&sb, "%s%s: /%c/%s\n", egTerm(t), options["__termType"], 'a'+t-1, options["__termAction"])
 	}
 	sb.WriteString("\n:: parser\n\n" + parserPre + "%input ")
 	for i, in := range g.Inputs {
@@ -168,7 +180,7 @@ func (g *egSpec) render(name string, options map[string]string, space bool, pars
 	}
 	sb.WriteString(";\n\n")
 	for ni, nt := range g.NTs {
-		sb.WriteString(nt.Name)
+		sb.WriteString(nt.Name + options["__ntType"])
 		if nt.Node != "" {
 			sb.WriteString(" -> " + nt.Node)
 		}
